@@ -14,6 +14,15 @@ CHECKS = {
              "validates every recorded conversion (plus exhaustive 8/16-bit sources, +-4096 neighbourhoods, random values) against Clamp and monotonicity.",
         note="Trusted: TLC, math/big projection of inputs/outputs to 24-bit limbs, int/uint being 64-bit. 32-bit sources are not swept exhaustively; NaN excluded.",
         technique="TLA+ spec (limb arithmetic) + TLC lemma check; TLC-enumerated input classes; TLC trace validation of recorded conversions"),
+    "C12": dict(
+        category="model_checking", design_ref="DESIGN.md 5/C12",
+        text="Four TLA+ models of the runners as coded (channels, select, contexts, RW mutex) are checked exhaustively by TLC for deadlock freedom, "
+             "termination under fairness, own-result-before-deadline, timeout only after the action ended, context triggered on exit, once-per-argument, "
+             "registered-before-Cancel-is-invoked; every terminated behaviour is replayed with scripted instants against the real functions; a sweep of "
+             "completion instants across the deadline (+-2 ms, 0..16 busy goroutines) is validated by TLC by inferring the unlogged steps, and concurrent "
+             "cancel-store / Parallelise histories are validated by trace specifications.",
+        note="Trusted: TLC, wall-clock scripting with 25 ms spacing, a 4 ms (+ measured scheduling latency) margin inside which either order of deadline and completion is accepted.",
+        technique="TLA+ specs + TLC exhaustive (safety, deadlock, liveness); behaviour replay; TLC trace validation with inferred silent steps"),
     "C19": dict(
         category="model_checking", design_ref="DESIGN.md 5/C19",
         text="TLC checks exhaustively (<=4 pages x <=2 items, <=12 calls, static and stream) that the cursor algorithm as coded "
